@@ -36,6 +36,7 @@ def make_tables(rnd, wd):
                          'y': [rnd.choice([40.0, 55.5, 80.0, 100.0, 200.0]) for _ in range(n)],
                          'k': [bool(rnd.getrandbits(1)) for _ in range(n)],
                          'w': [rnd.randint(10, 50) for _ in range(n)],
+                         'caf\u00e9 gr\u00f6\u00dfe \U0001F600': [rnd.choice([1.5, 2.5, 4.0]) for _ in range(n)],       # (a field name outside ASCII)
                          # (object dtype: the default str dtype of pandas 3 is not a string type to tdda; NA-like words are values)
                          's': pd.Series([rnd.choice(['a', 'bc', 'é☃', 'x y', 'q1', 'NA', 'null', 'None']) for _ in range(n)], dtype=object),
                          'd': pd.to_datetime([pd.Timestamp('2020-01-01') + pd.Timedelta(days=rnd.randint(0, 20)) for _ in range(n)])})
@@ -236,6 +237,7 @@ def run(chk):
                         ev['sameaslib'] = bool(same)
             except Exception as ex:
                 ev['raised'] = 'harness-lib-call %s' % type(ex).__name__
+                ev['sameaslib'] = False       # what the command left could not even be read back / compared with the library's result
                 info['lib_error'] = str(ex)[:200]
         events.append(ev)
         detail[tid] = info
